@@ -238,7 +238,8 @@ HISTORIES = [[], [], [], ['rebind'], ['copy'], ['warm-same'], ['warm-other'], ['
 
 
 def with_history(gen):
-    """Wrap an enumerating generator: every fourth case gets a history (cycled)."""
+    """Wrap an enumerating generator: every fourth case gets a history (cycled); a third of the cases that do not name an
+    entry point request the period by label (solve_period)."""
     def wrapped():
         import zlib
         for i, case in enumerate(gen()):
@@ -249,6 +250,8 @@ def with_history(gen):
             if (z >> 16) % 3 == 0 and 'span' not in case and not case.get('mixed'):
                 # the same labels at other positions than in the neighbouring cases (integer spans with another origin)
                 case = dict(case, span={'k': 'range', 'start': [1, -1, 2, 7][(z >> 20) % 4], 'n': case.get('n', 3), 'step': 1})
+            if (z >> 24) % 3 == 0 and 'entry' not in case:
+                case = dict(case, entry='solve_period')      # the same period requested by label
             yield case
     return wrapped
 
